@@ -238,6 +238,9 @@ class TranslatorSMT2(Translator):
                 else:
                     raise NotImplementedError("Unsupported OP yet: %s" % expr.op)
         elif expr.op == 'parity':
+            if expr.args[0].size < 8:
+                # ill-sorted extract otherwise: pad the operand to one byte
+                res = bv_concat(bit_vec_val(0, 8 - expr.args[0].size), res)
             arg = bv_extract(7, 0, res)
             res = bit_vec_val(1, 1)
             for i in range(8):
